@@ -7,6 +7,9 @@
 (*           (.thailint.yaml, .thailint.json, pyproject.toml [tool.thailint])*)
 (*   dash    "none" | "yaml" | "json": a file passed with --config           *)
 (*   cli     TRUE iff the command-line threshold option is given             *)
+(*   cliDefault  (with cli) the value given on the command line happens to    *)
+(*           be the built-in default of the option: it is still GIVEN, so     *)
+(*           it wins, and the effective value is the default (id 0)           *)
 (*   lang    TRUE iff every config file also carries a per-language override *)
 (*           of the option for the probe's language                          *)
 (*   spelling of the section name in every file: "hyphen" | "underscore"     *)
@@ -34,19 +37,20 @@ CONSTANTS LookupKind,        \* "both" | "underscoreOnly" | "hyphenOnly": which 
 Files == {"yaml", "json", "pyproject"}
 Id(c) == CASE c = "yaml" -> 1 [] c = "json" -> 2 [] c = "pyproject" -> 3
 
-VARIABLES files, dash, cli, lang, spelling, companion, done
-vars == <<files, dash, cli, lang, spelling, companion, done>>
+VARIABLES files, dash, cli, cliDefault, lang, spelling, companion, done
+vars == <<files, dash, cli, cliDefault, lang, spelling, companion, done>>
 
-Init == files = {} /\ dash = "none" /\ cli = FALSE /\ lang = FALSE /\ spelling = "hyphen" /\ companion = "none" /\ done = FALSE
-AddFile(c)   == ~done /\ c \notin files /\ files' = files \cup {c} /\ UNCHANGED <<dash, cli, lang, spelling, companion, done>>
-SetDash(d)   == ~done /\ dash = "none" /\ dash' = d /\ UNCHANGED <<files, cli, lang, spelling, companion, done>>
-SetCli       == ~done /\ ~cli /\ cli' = TRUE /\ UNCHANGED <<files, dash, lang, spelling, companion, done>>
-SetLang      == ~done /\ ~lang /\ lang' = TRUE /\ UNCHANGED <<files, dash, cli, spelling, companion, done>>
+Init == files = {} /\ dash = "none" /\ cli = FALSE /\ cliDefault = FALSE /\ lang = FALSE /\ spelling = "hyphen" /\ companion = "none" /\ done = FALSE
+AddFile(c)   == ~done /\ c \notin files /\ files' = files \cup {c} /\ UNCHANGED <<dash, cli, cliDefault, lang, spelling, companion, done>>
+SetDash(d)   == ~done /\ dash = "none" /\ dash' = d /\ UNCHANGED <<files, cli, cliDefault, lang, spelling, companion, done>>
+SetCli       == ~done /\ ~cli /\ cli' = TRUE /\ cliDefault' \in BOOLEAN
+                /\ UNCHANGED <<files, dash, lang, spelling, companion, done>>
+SetLang      == ~done /\ ~lang /\ lang' = TRUE /\ UNCHANGED <<files, dash, cli, cliDefault, spelling, companion, done>>
 Underscore   == ~done /\ spelling = "hyphen" /\ SectionHasHyphen /\ spelling' = "underscore"
-                /\ UNCHANGED <<files, dash, cli, lang, companion, done>>
+                /\ UNCHANGED <<files, dash, cli, cliDefault, lang, companion, done>>
 SetCompanion(k) == ~done /\ lang /\ companion = "none" /\ companion' = k
-                   /\ UNCHANGED <<files, dash, cli, lang, spelling, done>>
-Finish       == ~done /\ done' = TRUE /\ UNCHANGED <<files, dash, cli, lang, spelling, companion>>
+                   /\ UNCHANGED <<files, dash, cli, cliDefault, lang, spelling, done>>
+Finish       == ~done /\ done' = TRUE /\ UNCHANGED <<files, dash, cli, cliDefault, lang, spelling, companion>>
 Next == (\E c \in Files : AddFile(c)) \/ (\E d \in {"yaml", "json"} : SetDash(d)) \/ SetCli \/ SetLang
         \/ Underscore \/ (\E k \in {"before", "after"} : SetCompanion(k)) \/ Finish
 Spec == Init /\ [][Next]_vars
@@ -56,7 +60,8 @@ Spec == Init /\ [][Next]_vars
 Winner == IF dash # "none" THEN 4
           ELSE IF "yaml" \in files THEN 1 ELSE IF "json" \in files THEN 2
           ELSE IF "pyproject" \in files THEN 3 ELSE 0
-EffectiveA == IF cli THEN 5
+CliId == IF cliDefault THEN 0 ELSE 5
+EffectiveA == IF cli THEN CliId
               ELSE IF Winner = 0 THEN 0
               ELSE IF lang THEN Winner + 10 ELSE Winner
 
@@ -71,18 +76,18 @@ Found == \/ ~SectionHasHyphen
 LangOffsetB == IF ~lang THEN 0 ELSE IF ~ConfigKeyedByLanguage /\ companion = "before" THEN 20 ELSE 10
 FileValueB == IF Discovered = 0 \/ ~Found THEN 0
               ELSE Discovered + LangOffsetB
-EffectiveB == IF cli THEN (IF lang /\ ~CliReachesLang /\ Discovered # 0 /\ Found THEN Discovered + LangOffsetB ELSE 5)
+EffectiveB == IF cli THEN (IF lang /\ ~CliReachesLang /\ Discovered # 0 /\ Found THEN Discovered + LangOffsetB ELSE CliId)
               ELSE FileValueB
 
 BEqualsA == done => EffectiveB = EffectiveA
 SpellingIrrelevant == done => TRUE   \* EffectiveA has no `spelling` argument: by construction
-CliWins == (done /\ cli) => EffectiveA = 5
+CliWins == (done /\ cli) => EffectiveA = CliId
 \* what else is linted in the same run never matters (EffectiveA has no `companion` argument: by construction)
 DashReplacesDiscovery == (done /\ dash # "none" /\ ~cli) => EffectiveA \in {4, 14}
 
 SetToSeq3 == <<"yaml" \in files, "json" \in files, "pyproject" \in files>>
 Emit == done => PrintT(<<"CASE", ToJson([yaml |-> "yaml" \in files, json |-> "json" \in files,
-                                          pyproject |-> "pyproject" \in files, dash |-> dash, cli |-> cli,
+                                          pyproject |-> "pyproject" \in files, dash |-> dash, cli |-> cli, cliDefault |-> cliDefault,
                                           lang |-> lang, spelling |-> spelling, companion |-> companion,
                                           effective |-> EffectiveA])>>)
 =============================================================================
